@@ -117,8 +117,23 @@ func (rc *replayCtx) query() bool {
 	for _, r := range refs {
 		tail += "(get-value (" + r + "))\n"
 	}
-	script := s.Render("", "", nil, asserts, tail)
-	st, out, _ := runSolver(solverConfigs(20, 0)[0], script, 25*time.Second)
+	// unconstrained input bytes: prefer non-zero values, so that a stray write of a zero (or a missing
+	// copy) is visible on the real code; fall back to any model
+	var nz []string
+	for i, t := range pend {
+		if t.Sort == BV(8) {
+			nz = append(nz, fmt.Sprintf("(not (= %s #x00))", refs[i]))
+		}
+	}
+	st, out := "", ""
+	if len(nz) > 0 {
+		script := s.Render("", "", nil, append(append([]string{}, asserts...), nz...), tail)
+		st, out, _ = runSolver(solverConfigs(10, 0)[0], script, 12*time.Second)
+	}
+	if st != "sat" {
+		script := s.Render("", "", nil, asserts, tail)
+		st, out, _ = runSolver(solverConfigs(20, 0)[0], script, 25*time.Second)
+	}
 	if st != "sat" {
 		rc.log = append(rc.log, "value query: "+st)
 		return false
@@ -392,6 +407,7 @@ var termByIDdummy = 0
 
 func replayObligation(e *Engine, d *Discharged) (bool, interface{}) {
 	info := map[string]interface{}{}
+	smallModel(d)
 	o := d.Obl
 	if d.Res.Status != "sat" || len(d.Res.Model) == 0 {
 		candidateModel(d)
